@@ -52,6 +52,13 @@ FACT_USERS = {
     "qf": {"qf"},
 }
 
+# properties whose statements are about code paths that evaluate none of the extracted guards (the
+# operators of the growth / rotation / resize tests and of the saturation clamps in add and remove):
+# export+load (C05), the set operations and their read-only operands (C13), queries and clear() (C19).
+# When such a guard cannot be read any more, the models keep the previous operator and these
+# properties stay tied to the code by the correspondence on the lines they look at.
+GUARD_INDEPENDENT = {"C05", "C13", "C19"}
+
 READ_ONLY = r"\.(chk|stats|obs|export|hashes|jacc|view)\b"
 COUNTERS = ["count", "added", "total", "unique", "subcounts", "estimate", "cfpr", "setbits", "nblooms"]
 LOADS = r"\.(load|loadraw|reopen|loadmem|export)\b"
